@@ -87,6 +87,9 @@ SpyTrees ==
         op \in {"<", "=="}, l \in {LI(2), Var("a")}, r \in {LI(2), LI(3)}}
     \cup {[ty |-> "int", e |-> Bin(op, Un("-", l), r)] : op \in {"+", "-", "*"}, l \in {LI(2), Var("a")}, r \in {LI(3), Var("b")}}
     \cup {[ty |-> "int", e |-> Bin(op, l, Un("-", r))] : op \in {"+", "-", "*"}, l \in {LI(2), Var("a")}, r \in {LI(3), Var("b")}}
+    \cup {[ty |-> "int", e |-> Bin(op2, Bin(op, Un("-", l), r), LI(2))] : op \in {"+", "-", "*"}, op2 \in {"+", "*"}, l \in {LI(2), Var("a")}, r \in {LI(3), Var("b")}}
+    \cup {[ty |-> "int", e |-> Bin(op2, LI(2), Bin(op, Un("-", l), r))] : op \in {"+", "-", "*"}, op2 \in {"+", "*", "-"}, l \in {LI(2), Var("a")}, r \in {LI(3), Var("b")}}
+    \cup {[ty |-> "bool", e |-> Bin(cmp, Bin(op, Un("-", l), r), LI(1))] : cmp \in {"<", "=="}, op \in {"+", "-"}, l \in {LI(2), Var("a")}, r \in {LI(3), Var("b")}}
     \cup {[ty |-> "bool", e |-> Un("not", Bin(op, l, r))] : op \in {"<", "=="}, l \in {LI(2), Var("a")}, r \in {LI(2), LI(3)}}
     \cup {[ty |-> "bool", e |-> Bin(op, Un("not", l), r)] : op \in {"and", "or"}, l \in BoolLeaves, r \in BoolLeaves}
     \cup {[ty |-> "str", e |-> Bin("~", Filt("upper", l, <<>>), r)] : l \in StrLeaves, r \in StrLeaves \cup IntLeaves}
